@@ -658,6 +658,35 @@ def gen_split_boundary_scripts(rng, tier):
     return out
 
 
+def gen_storage_cycle_scripts(rng, tier):
+    """storages created and deleted repeatedly, ending with NO storage left (or all destroyed) before fin()"""
+    out = []
+    for n in range(6 if tier == "quick" else 24):
+        ops = ["init", "fin", "init", "enter"]
+        names = [b"s", b"t12345678", b"t123456789", b""][:rng.choice([1, 2, 4])]
+        for rnd in range(rng.choice([1, 2, 3])):
+            for nm in names:
+                ops.append("create " + hx(nm))
+                for i in range(rng.choice([0, 1, 20])):
+                    ops.append("put %s %s %s 8 0 0" % (hx(nm), hx(bytes([0x41 + i % 26, i])), hx(b"v")))
+            if rng.random() < 0.3:
+                ops.append("list")
+            order = list(names)
+            rng.shuffle(order)
+            for nm in order:
+                ops.append("dropst " + hx(nm))
+            if rng.random() < 0.5:
+                ops.append("list")
+        end = rng.random()
+        if end < 0.3:
+            ops.append("destroy")
+        elif end < 0.5:
+            ops += ["create 73", "destroy"]
+        ops += ["leave", "fin"]
+        out.append(("stcycle%d" % n, ops))
+    return out
+
+
 def gen_failed_ddl_scripts(rng, tier):
     """more failed storage operations (delete / find / create of unknown or existing names) than there are session
     slots: each must release what it took, so the operations after them still complete"""
